@@ -170,7 +170,8 @@ def run(tier, replay=None):
         else:      # leaf case: the recorded implementation output is re-compared with the model
             cases = [case] if case else []
     else:
-        rc, out = corr.sh([binp, "-out", cases_path, "-n", str(spec["n"][tier])], env=env, timeout=3000,
+        n = int(os.environ.get("VERIF_C10_N") or spec["n"][tier])   # VERIF_C10_N: development only
+        rc, out = corr.sh([binp, "-out", cases_path, "-n", str(n)], env=env, timeout=3000,
                           cwd=os.path.join(corr.ROOT, "go"))
         if rc != 0:
             rep.violation({"property": pid, "broken_tie": "Go harness crashed or timed out (exit %d)" % rc,
